@@ -32,5 +32,5 @@ MANIFEST = {
     'category': 'other',
     'technique': 'per enumerated form: parse-back of the generated Cython kernel (symbolic execution of precompute/kernel text over sympy) against the denotation of the form; compiled assemblers compared with an independent quadrature of the denotation (bounded)',
     'text': 'For each of the enumerated forms (scalar and vector-valued, mass/stiffness/convection/div/curl/Hessian/space-time/surface, parametric and physical fields, parameters, builtin functions, two-space Petrov-Galerkin): the integrand accumulated by the generated kernel, with the precomputed fields it reads, equals the mathematical value of the un-finalized form for all values of basis-function, field and geometry jets (exact sympy identity); the compiled assembler builds, loads and its matrix/vector equals the Gauss-Legendre sum (max degree+1 nodes per span) of that value for every pair of basis functions on random mixed-degree spaces with repeated knots and non-affine B-spline geometries (bounded, 1e-9 relative).',
-    'note': 'per enumerated program only; the meaning of the surface operators (grad, div, curl, inner, dot, slices on all shapes) is the rule set shared with C06; boundary forms and derivatives of callable fields outside the domain; source-field slot layout and __init__ glue covered by the bounded tier only.',
+    'note': 'per enumerated program only; the meaning of the surface operators (grad, div, curl, inner, dot, slices on all shapes) is the rule set shared with C06; boundary forms and derivatives of callable fields outside the domain; source-field slot layout and __init__ glue covered by the bounded tier only. Bounded tier also: a form, its one-token neighbours and the form again compiled and assembled in one process (in-process assembler cache); boundary integrals on all four sides in sequence with one shared args dict.',
 }
